@@ -196,6 +196,20 @@ CLAIMED = {
             "unexported or name-ambiguous embedded fields are not generated.",
             "TLA+ decision table (Fields.tla) as oracle: TLC validates one trace line per run-time-generated struct shape executed on the real code",
             "DESIGN.md §4 C20"),
+    "C18": ("exploration",
+            "RoundTrip.tla fixes the journey of a value (put; get and get-version over the real HTTP API; both again after a server restart; a "
+            "client Store; the Store's cache document; a successor Store started from that cache with the service unreachable; a file-backed "
+            "client on the same file), that every hop must deliver exactly the bytes put, and the one exception the property makes (the "
+            "file-backed client may omit an empty value). Generated byte strings of every named class (empty, NULs, newlines, invalid UTF-8, JSON "
+            "and base64 look-alikes, all byte values, every length residue mod 3, up to megabytes) are driven through the real system and TLC "
+            "validates every recorded hop. PutCli.tla is the decision table of `setec put` written from the documented behaviour (with the "
+            "latitude where both --verbatim and --trim-space are given); the binary built from the working tree is run for every input class x "
+            "{file, pipe} x all 8 flag subsets x several concrete inputs against a local real server, and TLC checks exit status, number of "
+            "requests and the stored bytes of every run against PutCli!Allowed.",
+            "Universality over byte strings is by generation, not enumeration; the terminal (interactive) input path is not exercised. Retrieval "
+            "paths at the db.DB level are additionally covered byte-for-byte by the C02/C03/C09 graph replays (binary value dictionary).",
+            "TLA+ journey and decision-table specifications as oracles: TLC validates recorded end-to-end journeys of generated values and every run of the real CLI binary",
+            "DESIGN.md §4 C18"),
 }
 
 ALL = ["C%02d" % i for i in range(1, 21)]
